@@ -151,7 +151,7 @@ func hostDocs(env *Env) []int {
 			continue
 		}
 		low := bytes.ToLower(d.Data)
-		if bytes.Contains(low, []byte("<style")) || bytes.Contains(low, []byte("<script")) || bytes.Contains(low, []byte("<svg")) || bytes.Contains(low, []byte("style=")) || bytes.Contains(low, []byte("example.com")) {
+		if bytes.Contains(low, []byte("<style")) || bytes.Contains(low, []byte("<script")) || bytes.Contains(low, []byte("<svg")) || bytes.Contains(low, []byte("style=")) || bytes.Contains(low, []byte("example.com")) || bytes.Contains(low, []byte("data:")) {
 			hostIdx = append(hostIdx, i)
 		}
 	}
